@@ -37,6 +37,14 @@ Rows and where they are documented:
   fmodule_mix        arguments whose statement entries carry f_module / f_module_line (void*, void**, T** in/out, char scalar,
                      char**, std::string by value, +deref(raw/pointer) results, std::vector out/result, +cdesc), each between
                      scalars of different kinds, so that a module's ONLY list is built from several entries
+  class_multi_header a class whose class-level `cxx_header:` is a blank-delimited LIST of headers that are not self-contained: each header
+                     uses a typedef of the one listed before it, and the required order is (mostly) not the alphabetical one
+                     (docs/reference.rst cxx_header: "Blank delimited list of header files ... The order will be preserved when
+                     generating wrapper files"); with and without destructor (the destructor body lives in the library file), also
+                     a second such class and a class inside a namespace
+  doxygen_text       functions (with and without a Fortran wrapper body), methods with a `doxygen:` block (docs/reference.rst doxygen,
+                     docs/input.rst) whose brief / description / return are single-line, multi-line block scalars with and without the
+                     trailing newline, with blank lines, tabs and characters special to the comment syntax of the other language
 All randomness comes from the `random.Random` passed in."""
 import re
 
@@ -44,9 +52,9 @@ import yaml
 
 from tools.gen import libgen
 
-FEATURES = ["template_defaults", "enum_expr", "struct_members", "fixed_width", "class_result", "namespace_helpers", "struct_in_class", "assumed_rank", "fmodule_mix", "class_own_header", "class_cpp_if", "callback", "long_args", "long_types", "strings_vectors",
+FEATURES = ["class_multi_header", "doxygen_text", "template_defaults", "enum_expr", "struct_members", "fixed_width", "class_result", "namespace_helpers", "struct_in_class", "assumed_rank", "fmodule_mix", "class_own_header", "class_cpp_if", "callback", "long_args", "long_types", "strings_vectors",
             "overloads_defaults", "enum_ns"]
-CXX_ONLY = {"template_defaults", "class_result", "namespace_helpers", "struct_in_class", "class_own_header", "class_cpp_if", "long_types", "strings_vectors", "overloads_defaults"}
+CXX_ONLY = {"class_multi_header", "template_defaults", "class_result", "namespace_helpers", "struct_in_class", "class_own_header", "class_cpp_if", "long_types", "strings_vectors", "overloads_defaults"}
 
 SOLO = {"fixed_width", "namespace_helpers", "struct_members"}
 
@@ -240,6 +248,82 @@ def f_class_own_header(r, idx):
     return [{"decl": "class %s" % cname, "cxx_header": "%s_own.hpp" % cname.lower(), "declarations": decls}], []
 
 
+HDR_STEMS = ["zcore", "alink", "mbase", "ybits", "bnode", "xtypes", "cdefs"]
+
+
+def f_class_multi_header(r, idx):
+    out = []
+    ncls = r.choice([1, 1, 2])
+    for k in range(ncls):
+        cname = r.choice(["FastLink", "Router", "PacketQueue"]) + "%d_%d" % (idx, k)
+        stems = r.sample(HDR_STEMS, r.choice([2, 2, 3]))
+        if r.random() < 0.75:
+            stems.sort(reverse=True)          # the required order is the reverse of the alphabetical one
+        hdrs = ["%s%d_%d.hpp" % (s, idx, k) for s in stems]
+        decls = [{"decl": "%s()" % cname}]
+        if r.random() < 0.85:
+            decls.append({"decl": "~%s()" % cname})
+        decls.append({"decl": "int hops(int from) const"})
+        if r.random() < 0.4:
+            decls.append({"decl": "%s *next() const" % cname})
+        cls = {"decl": "class %s" % cname, "cxx_header": " ".join(hdrs), "declarations": decls}
+        if r.random() < 0.25:
+            out.append({"decl": "namespace net%d_%d" % (idx, k), "declarations": [cls, {"decl": "int net_size%d_%d()" % (idx, k)}]})
+        else:
+            out.append(cls)
+    if r.random() < 0.5:
+        out.append({"decl": "int plain_between%d(int a)" % idx})
+    return out, []
+
+
+DOX_LINES = ["the number of channels that are open", "or zero when the channel does not exist", "see also c_ptr and *values",
+             "! not a statement", "// not code; nor this", "call abort()", "end subroutine", "#define X 1", "50% of the total",
+             "a tab\tinside the text", "  indented continuation", "use, intrinsic :: iso_c_binding", "return 0;", "x = y & z &"]
+
+
+def _dox_text(r):
+    n = r.choice([1, 2, 2, 3, 4])
+    lines = r.sample(DOX_LINES, n)
+    if n > 2 and r.random() < 0.3:
+        lines.insert(1, "")
+    text = "\n".join(lines)
+    if r.random() < 0.5:
+        text += "\n"
+    return text
+
+
+def _dox(r, force=None):
+    d = {}
+    for k in ("brief", "description", "return"):
+        if k == force or r.random() < 0.6:
+            d[k] = _dox_text(r)
+    if force and "\n" not in d[force].strip("\n"):
+        d[force] = "first line of it\n" + d[force]
+    return d
+
+
+def f_doxygen_text(r, idx, language="c++"):
+    """every key is forced multi-line at least once per library; the functions cover: Fortran wrapper body (char*), interface only
+    (scalars), subroutine, and (C++) a method"""
+    shapes = ["int channel_count%(i)d_%(k)d(const char *name)", "double gain%(i)d_%(k)d(int channel, double scale)",
+              "void reset_channel%(i)d_%(k)d(int channel)", "void name_of_channel%(i)d_%(k)d(int channel, char *name +intent(out)+charlen(32))",
+              "int *levels%(i)d_%(k)d(int n) +dimension(n)"]
+    if language != "c":
+        shapes += ["const std::string &label%(i)d_%(k)d(int channel)", "int measure%(i)d_%(k)d(const std::string &what, int times = 1)"]
+    out = []
+    forces = ["return", "brief", "description"]
+    r.shuffle(forces)
+    picks = [shapes[0]] + r.sample(shapes[1:], r.randrange(2, 4))
+    for k, sh in enumerate(picks):
+        out.append({"decl": sh % {"i": idx, "k": k}, "doxygen": _dox(r, forces[k] if k < len(forces) else None)})
+    if language != "c" and r.random() < 0.5:
+        cname = "Gauge%d" % idx
+        out.append({"decl": "class %s" % cname, "declarations": [
+            {"decl": "%s()" % cname, "doxygen": _dox(r, "brief")}, {"decl": "~%s()" % cname},
+            {"decl": "int read(const char *channel)", "doxygen": _dox(r, "return")}]})
+    return out, []
+
+
 def f_class_cpp_if(r, idx):
     cname = "Optional%d" % idx
     macro = "USE_OPTIONAL_%d" % idx
@@ -319,7 +403,7 @@ def gen(r, feature, language=None, allow_vector=True, name="flib"):
     for i, f in enumerate(feats):
         if f == "strings_vectors":
             d, m = f_strings_vectors(r, i, allow_vector)
-        elif f in ("enum_ns", "fmodule_mix", "fixed_width", "enum_expr", "struct_members"):
+        elif f in ("doxygen_text", "enum_ns", "fmodule_mix", "fixed_width", "enum_expr", "struct_members"):
             d, m = globals()["f_" + f](r, i, language)
         else:
             d, m = globals()["f_" + f](r, i)
